@@ -91,6 +91,7 @@ type wstate struct {
 }
 
 type Walker struct {
+	immutTerms map[string]bool // canonical terms that read immutable fields
 	P          *Program
 	Cfg        WalkConfig
 	Paths      []Path
@@ -139,7 +140,7 @@ func (st *wstate) top() *frame { return st.frames[len(st.frames)-1] }
 
 // Walk enumerates paths of fn.
 func Walk(p *Program, fn *ssa.Function, cfg WalkConfig) *Walker {
-	w := &Walker{P: p, Cfg: cfg, loops: map[*ssa.Function]*loopInfo{}, info: map[*ssa.Function]*fnInfo{}, seen: map[uint64]bool{}, allocs: map[string]*ssa.Alloc{}, heap: map[string]bool{}}
+	w := &Walker{P: p, Cfg: cfg, loops: map[*ssa.Function]*loopInfo{}, info: map[*ssa.Function]*fnInfo{}, seen: map[uint64]bool{}, allocs: map[string]*ssa.Alloc{}, heap: map[string]bool{}, immutTerms: map[string]bool{}}
 	if fn == nil || fn.Blocks == nil {
 		w.Err = fmt.Errorf("function has no body")
 		return w
@@ -418,6 +419,20 @@ func (w *Walker) canonD(st *wstate, fr *frame, v ssa.Value, d int) string {
 				if bv, ok := st.store[base]; ok {
 					return bv + "." + fieldName(fa.X.Type(), fa.Field)
 				}
+			}
+			// a captured variable that is only a copy of an immutable field of a
+			// captured parameter (cfgFlag := s.lc.Flag): named after the field, so
+			// that reading the field directly or through the copy is the same term
+			if fv, ok := x.X.(*ssa.FreeVar); ok {
+				if al := freeAlias(w.P, fr.fn, fv); al != "" {
+					w.immutTerms[al] = true
+					return al
+				}
+			}
+			// reads of fields that are never written after construction: facts
+			// about them survive calls (see RelState.ForgetExcept)
+			if fa, ok := x.X.(*ssa.FieldAddr); ok && w.P.immutableField(fa.X.Type(), fa.Field) {
+				w.immutTerms[simplifyDeref(addr)] = true
 			}
 			if strings.HasPrefix(addr, "&global:") && w.P.MutableGlobal(addr[len("&global:"):]) && st.epoch > 0 {
 				return fmt.Sprintf("%s~e%d", simplifyDeref(addr), st.epoch)
@@ -1022,6 +1037,8 @@ func (w *Walker) knownNonNil(v string) bool {
 	switch {
 	case strings.HasPrefix(v, "fmt.Errorf@"), strings.HasPrefix(v, "fmt.Errorf("), strings.HasPrefix(v, "errors.New@"), strings.HasPrefix(v, "errors.New("):
 		return true
+	case v == "global:context.Canceled", v == "global:context.DeadlineExceeded", v == "global:io.EOF":
+		return true
 	case strings.HasPrefix(v, "global:"):
 		name := strings.TrimPrefix(v, "global:")
 		i := strings.LastIndex(name, ".")
@@ -1337,7 +1354,7 @@ func (w *Walker) call(st *wstate, b *ssa.BasicBlock, idx int, in *ssa.Call) bool
 				case *types.Pointer, *types.Map, *types.Interface:
 					ac := w.canon(st, fr, a)
 					if strings.HasPrefix(ac, "param:") || strings.HasPrefix(ac, "local:") || strings.HasPrefix(ac, "*free:") {
-						st.rel.Forget(ac + ".")
+						st.rel.ForgetExcept(ac+".", w.immutTerms)
 					}
 				}
 			}
